@@ -4,6 +4,7 @@ import (
 	"encoding/gob"
 	"go/ast"
 	"go/token"
+	"sort"
 	"sync"
 )
 
@@ -83,7 +84,25 @@ func prepareFile(file *ast.File) *ast.File {
 
 	// Clear fields that can be easily reconstructed.
 	file.Imports = nil
-	file.Comments = nil
+
+	// Comment groups attached to nodes (Doc and line comments) are restored from
+	// those nodes by unpackFile. Free-floating groups, which may hold compiler
+	// directives such as a //go:linkname that does not document a declaration,
+	// are not reachable from any node and have to be kept explicitly.
+	attached := map[*ast.CommentGroup]bool{}
+	ast.Inspect(file, func(n ast.Node) bool {
+		if cg, ok := n.(*ast.CommentGroup); ok {
+			attached[cg] = true
+		}
+		return true
+	})
+	var floating []*ast.CommentGroup
+	for _, cg := range file.Comments {
+		if !attached[cg] {
+			floating = append(floating, cg)
+		}
+	}
+	file.Comments = floating
 
 	// Clear fields that are deprecated.
 	file.Scope = nil
@@ -115,6 +134,9 @@ func unpackFile(file *ast.File) {
 		return true
 	})
 	file.Imports = imports
+	// file.Comments holds the free-floating groups kept by prepareFile.
+	comments = append(comments, file.Comments...)
+	sort.SliceStable(comments, func(i, j int) bool { return comments[i].Pos() < comments[j].Pos() })
 	file.Comments = comments
 }
 
